@@ -10,6 +10,19 @@ use tracing::info;
 
 static INSTANCE: OnceLock<Option<Arc<CacheMemoryTracker>>> = OnceLock::new();
 
+// Under a simulator the singleton is per simulated process (thread-local, resettable) and is
+// built without probing the host's memory.
+#[cfg(feature = "iggy_verif")]
+thread_local! {
+    static VERIF_INSTANCE: std::cell::RefCell<Option<Option<Arc<CacheMemoryTracker>>>> =
+        const { std::cell::RefCell::new(None) };
+}
+
+#[cfg(feature = "iggy_verif")]
+pub(crate) fn verif_reset() {
+    VERIF_INSTANCE.with(|instance| *instance.borrow_mut() = None);
+}
+
 #[derive(Debug)]
 pub struct CacheMemoryTracker {
     used_memory_bytes: AtomicU64,
@@ -20,6 +33,24 @@ type MessageSize = u64;
 
 impl CacheMemoryTracker {
     pub fn initialize(config: &CacheConfig) -> Option<Arc<CacheMemoryTracker>> {
+        #[cfg(feature = "iggy_verif")]
+        if iggy::verif::is_installed() {
+            return VERIF_INSTANCE.with(|instance| {
+                instance
+                    .borrow_mut()
+                    .get_or_insert_with(|| {
+                        if config.enabled {
+                            Some(Arc::new(CacheMemoryTracker {
+                                used_memory_bytes: AtomicU64::new(0),
+                                limit_bytes: config.size.clone().into(),
+                            }))
+                        } else {
+                            None
+                        }
+                    })
+                    .clone()
+            });
+        }
         INSTANCE
             .get_or_init(|| {
                 if config.enabled {
@@ -33,6 +64,10 @@ impl CacheMemoryTracker {
     }
 
     pub fn get_instance() -> Option<Arc<CacheMemoryTracker>> {
+        #[cfg(feature = "iggy_verif")]
+        if iggy::verif::is_installed() {
+            return VERIF_INSTANCE.with(|instance| instance.borrow().clone().flatten());
+        }
         INSTANCE.get().cloned().flatten()
     }
 
